@@ -60,4 +60,31 @@ def _dispatch_case(rep):
     return rep["clause"] in res["failed"].get(0, [])
 
 
-REPLAYERS = {"dispatch_case": _dispatch_case, "session_ops": _session_ops, "errorclass_case": _errorclass_case, "errorclass_sets": _errorclass_sets}
+def _handshake(rep):
+    from harness.props import handshake
+    from harness.drivers import handshake_drv
+    from harness.common import Ctx
+    traces = handshake_drv.run_cases([rep["case"]])
+    print(json.dumps(traces))
+    versions = set(traces[0]["sup"]) | {e.get("v") for e in traces[0]["ev"] if isinstance(e.get("v"), str)}
+    for e in traces[0]["ev"]:
+        if isinstance(e.get("a"), dict) and isinstance(e["a"].get("v"), str):
+            versions.add(e["a"]["v"])
+        if isinstance(e.get("version"), str):
+            versions.add(e["version"])
+    res = validate.two_stage("HandshakeTrace", traces, handshake.trace_constants(rep["paired"], versions), work=os.path.join(tlc.WORK, "replay_hs"), jobs=1)
+    print("verdict:", res["verdict"][0])
+    return rep["clause"] in res["verdict"][0]["clauses"]
+
+
+def _handshake_server(rep):
+    from harness.props import handshake
+    from harness.drivers import handshake_drv
+    recs = handshake_drv.run_server_cases([rep["value"]])
+    print(json.dumps(recs))
+    res = validate.validate("HandshakeServerTrace", recs, handshake.trace_constants(True, set()), work=os.path.join(tlc.WORK, "replay_hs"), jobs=1)
+    print("failed clauses:", res["failed"])
+    return rep["clause"] in res["failed"].get(0, [])
+
+
+REPLAYERS = {"handshake": _handshake, "handshake_server": _handshake_server, "dispatch_case": _dispatch_case, "session_ops": _session_ops, "errorclass_case": _errorclass_case, "errorclass_sets": _errorclass_sets}
